@@ -103,10 +103,10 @@ def abstract_def(sd):
     for pt, children in sd["relations"].items():
         cs = []
         for ct, spec in children.items():
-            lo, hi, zero = count_of(spec)
             merged = dict(types.get("*", {}))
             merged.update(types.get(ct, {}))
             merged.update(spec)
+            lo, hi, zero = count_of(merged)     # `:count` is merged like every other key of the three layers
             layer = layer_of(spec)
             if merged.get(":callback"):
                 layer = layer + [[KEYS["cb"], sp("fixed", 1)]]
@@ -203,6 +203,12 @@ def library(rng):
         "relations": {"__root__": {"folder": {":count": 2, "ty": 1, "i": "{idx}"}, "item": {":count": 1, "ty": 2}},
                       "folder": {"leaf": {":count": 1, "ty": 3, "icon": "moon", "h": "{hier_idx}"}},
                       "item": {"leaf": {":count": 3, "ty": 3, "g": 5, "i": "{idx}"}}}}))
+    defs.append(("counts from the type layers", {
+        "types": {"*": {":count": 2, "icon": "gear"}, "item": {":count": RangeRandomizer(1, 3)}, "leaf": {"g": 5}},
+        "relations": {"__root__": {"folder": {"ty": 1, "i": "{idx}"}},                      # 2 (global default)
+                      "folder": {"item": {"ty": 2, "i": "{idx}"},                             # 1..3 (type default)
+                                 "leaf": {":count": 1, "ty": 3, "h": "{hier_idx}"}},          # 1 (relation wins)
+                      "item": {"leaf": {"ty": 3, "i": "{idx}"}}}}))                           # 2 (global default)
     defs.append(("probability 0 and 1", {
         "relations": {"__root__": {"folder": {":count": 1, "ty": 1, "flag": SparseBoolRandomizer(probability=0.0),
                                               "v": ValueRandomizer(9, probability=1.0)}},
